@@ -197,7 +197,7 @@ def build(read):
     rpe, n3 = re.subn(r"(\"(?:[^\"\\\\]|\\\\.)*\")\.to_string\(\)", r"str_to_string(\1)", rpe)
     b.edits.append(f"D6: render_parse_error: {n2} `format!` invocations expanded, {n3}x `\"..\".to_string()` -> str_to_string(..)")
     rpe = extract.annotate_fn(rpe, spec="""
-    ensures r.0 == parse_error_position(error), // [C17_C18:the_position_of_a_syntax_error_is_where_the_offending_character_or_unexpected_token_starts]
+    ensures r.0 == parse_error_position(error), // [C09_C17_C18:the_position_of_a_syntax_error_is_where_the_offending_character_or_unexpected_token_starts]
 """)
     hdr, body = extract.fn_header_body(f)
     if not re.match(r"\s*fn main\(\)\s*$", hdr):
